@@ -61,8 +61,9 @@ MatchM(m, args, ro, env) == MMatch(P, FixGroupEnvExcl, m, args, ro, env)
 \* ---------- state machine ----------
 VARIABLES si, env, argv, G, root, phase,
           sstack, visited, expanded,      \* simplify
-          astack, ret, steps              \* apply
-vars == <<si, env, argv, G, root, phase, sstack, visited, expanded, astack, ret, steps>>
+          astack, ret, steps,             \* apply
+          hist                            \* history: the calls of apply that reached their matchers, in order: <<state, args, options-ended>>
+vars == <<si, env, argv, G, root, phase, sstack, visited, expanded, astack, ret, steps, hist>>
 
 Alphabet == SeqToSet(In.alphabet)
 RECURSIVE SeqsUpTo(_)
@@ -74,7 +75,7 @@ Init == /\ si \in DOMAIN In.specs
         /\ LET c == Compile(In.specs[si].cst) IN G = c.g /\ root = c.root
         /\ phase = "simplify"
         /\ sstack = <<[s |-> root, i |-> 0, n |-> Len(G.tr[root])]>> /\ visited = {root} /\ expanded = {}
-        /\ astack = <<>> /\ ret = "none" /\ steps = 0
+        /\ astack = <<>> /\ ret = "none" /\ steps = 0 /\ hist = <<>>
 
 Top(st) == st[Len(st)]
 Pop(st) == SubSeq(st, 1, Len(st) - 1)
@@ -88,7 +89,7 @@ SimplifyVisit ==
      /\ LET n == G.tr[f.s][f.i + 1].n IN
         IF n \in visited THEN /\ sstack' = SetTop(sstack, [f EXCEPT !.i = @ + 1]) /\ UNCHANGED visited
         ELSE /\ sstack' = Append(SetTop(sstack, [f EXCEPT !.i = @ + 1]), [s |-> n, i |-> 0, n |-> Len(G.tr[n])]) /\ visited' = visited \cup {n}
-  /\ UNCHANGED <<si, env, argv, G, root, phase, expanded, astack, ret, steps>>
+  /\ UNCHANGED <<si, env, argv, G, root, phase, expanded, astack, ret, steps, hist>>
 
 FirstEps(trs) == LET S == {i \in 1..Len(trs) : trs[i].m.k = "eps"} IN IF S = {} THEN 0 ELSE CHOOSE i \in S : \A j \in S : i <= j
 HasT(trs, t) == \E i \in 1..Len(trs) : trs[i] = t
@@ -113,7 +114,7 @@ SimplifySelf ==
                 /\ LET src == IF nx = f.s THEN removed ELSE G.tr[nx] IN
                    G' = [G EXCEPT !.tr[f.s] = AddMissing(removed, src, 1), !.term[f.s] = @ \/ G.term[nx]]
                 /\ expanded' = expanded \cup {nx} /\ UNCHANGED sstack
-  /\ UNCHANGED <<si, env, argv, root, phase, visited, astack, ret, steps>>
+  /\ UNCHANGED <<si, env, argv, root, phase, visited, astack, ret, steps, hist>>
 
 StableSort(trs) == LET Q(p) == SelectSeq(trs, LAMBDA t : Prio(t.m) = p) IN Q(1) \o Q(2) \o Q(8) \o Q(9) \o Q(10)
 
@@ -123,7 +124,7 @@ SimplifyDone ==
   /\ G' = [G EXCEPT !.tr = [i \in 1..Len(G.tr) |-> StableSort(G.tr[i])]]
   /\ phase' = "apply"
   /\ astack' = <<[s |-> root, args |-> argv, ro |-> FALSE, b |-> <<>>, stage |-> "enter", ms |-> <<>>, mi |-> 0, idle |-> {}]>>
-  /\ UNCHANGED <<si, env, argv, root, sstack, visited, expanded, ret, steps>>
+  /\ UNCHANGED <<si, env, argv, root, sstack, visited, expanded, ret, steps, hist>>
 
 RECURSIVE Collect(_, _, _, _, _)
 Collect(trs, i, args, ro, e) ==
@@ -151,6 +152,14 @@ Enter ==
                                                     !.idle = @ \cup {<<f.s, f.ro>>}])
                 /\ UNCHANGED ret
   /\ steps' = steps + 1
+  /\ hist' = LET f == Top(astack)
+                 drop == Len(f.args) > 0 /\ ~f.ro /\ IsDD(f.args[1])
+                 args2 == IF drop THEN Tail(f.args) ELSE f.args
+                 reaches == /\ ~(FixEpsLoop /\ <<f.s, f.ro>> \in f.idle)
+                            /\ ~(~FixTrailingDD /\ G.term[f.s] /\ Len(f.args) = 0)
+                            /\ ~(FixTrailingDD /\ G.term[f.s] /\ Len(args2) = 0)
+                            /\ Len(G.tr[f.s]) > 0
+             IN IF reaches THEN Append(hist, <<f.s, args2, f.ro \/ drop>>) ELSE hist
   /\ UNCHANGED <<si, env, argv, G, root, phase, sstack, visited, expanded>>
 
 (* apply: the loop over the matches *)
@@ -163,7 +172,7 @@ Try ==
              /\ astack' = Append(astack, [s |-> m.n, args |-> m.rem, ro |-> m.ro, b |-> m.b, stage |-> "enter", ms |-> <<>>, mi |-> 0,
                                          idle |-> IF m.rem = f.args THEN f.idle ELSE {}])
              /\ UNCHANGED ret
-  /\ UNCHANGED <<si, env, argv, G, root, phase, sstack, visited, expanded, steps>>
+  /\ UNCHANGED <<si, env, argv, G, root, phase, sstack, visited, expanded, steps, hist>>
 
 Return ==
   /\ phase = "apply" /\ ret # "none"
@@ -176,7 +185,7 @@ Return ==
      ELSE \* the popped frame failed: the caller tries its next match (or the whole parse failed)
         IF astack = <<>> THEN /\ phase' = "done" /\ UNCHANGED <<astack, ret>>
         ELSE /\ astack' = SetTop(astack, [Top(astack) EXCEPT !.mi = @ + 1]) /\ ret' = "none" /\ UNCHANGED phase
-  /\ UNCHANGED <<si, env, argv, G, root, sstack, visited, expanded, steps>>
+  /\ UNCHANGED <<si, env, argv, G, root, sstack, visited, expanded, steps, hist>>
 
 MapOfB(b) == LET vars2 == {<<b[i][1], b[i][2]>> : i \in 1..Len(b)} IN
              [v \in vars2 |-> LET sel == SelectSeq(b, LAMBDA x : <<x[1], x[2]>> = v) IN [i \in 1..Len(sel) |-> sel[i][3]]]
@@ -185,8 +194,13 @@ MapSeq(m) == SE!SetToSeq({[kind |-> v[1], name |-> v[2], vals |-> m[v]] : v \in 
 Emit ==
   /\ phase = "done" /\ phase' = "emitted"
   /\ PrintT("OP " \o ToJson([si |-> si - 1, env |-> SE!SetToSeq(env), argv |-> argv, accepted |-> (ret = "true"), steps |-> steps,
-                              binds |-> IF ret = "true" THEN MapSeq(MapOfB(astack[1].b)) ELSE <<>>]))
-  /\ UNCHANGED <<si, env, argv, G, root, sstack, visited, expanded, astack, ret, steps>>
+                              binds |-> IF ret = "true" THEN MapSeq(MapOfB(astack[1].b)) ELSE <<>>,
+                              hist |-> [i \in 1..Len(hist) |-> [s |-> hist[i][1], args |-> hist[i][2], ro |-> hist[i][3]]],
+                              \* the prepared automaton (once per spec: only with the empty command line)
+                              graph |-> IF argv = <<>> THEN [root |-> root, term |-> G.term,
+                                          tr |-> [i \in 1..Len(G.tr) |-> [j \in 1..Len(G.tr[i]) |-> [k |-> G.tr[i][j].m.k, a |-> G.tr[i][j].m.a, xs |-> G.tr[i][j].m.xs, n |-> G.tr[i][j].n]]]]
+                                        ELSE <<>>]))
+  /\ UNCHANGED <<si, env, argv, G, root, sstack, visited, expanded, astack, ret, steps, hist>>
 
 Next == SimplifyVisit \/ SimplifySelf \/ SimplifyDone \/ Enter \/ Try \/ Return \/ Emit
 Spec == Init /\ [][Next]_vars /\ WF_vars(Next)
